@@ -1061,3 +1061,106 @@ def _table_a3(ctx: Ctx, rule: str) -> None:
 
 
 EXTRA['C02'] += [(_table_a3, 'R2.19')]
+
+
+# ---------------------------------------------------------------------------------------------------------------- round 5
+def check_patched_version_flow(ctx: Ctx, rule: str) -> None:
+    """application.patch_and_check: the version handed back to the worker is read from the response of the PATCH on every path on which a request was made; nothing
+    replaces it by None (every own write moves the resourceVersion: annotations travel in the same merge-patch even when the status part was pruned)."""
+    repo = ctx.repo
+    f = repo.fn('application.patch_and_check')
+    ctx.analysed(f)
+    rets = [r for r in walk_no_defs(f.node) if isinstance(r, ast.Return) and isinstance(r.value, ast.Tuple) and len(r.value.elts) == 2]
+    ctx.require_sites(rule, 'patch_and_check: returns of (version, remaining patch)', len(rets), 1, f.loc())
+    names = {r.value.elts[0].id for r in rets if isinstance(r.value.elts[0], ast.Name)}
+    n = 0
+    for nm in names:
+        for a in walk_no_defs(f.node):
+            if isinstance(a, ast.Assign) and any(isinstance(t, ast.Name) and t.id == nm for t in a.targets):
+                n += 1
+                txt = src(a.value, 400)
+                ok = 'resourceVersion' in txt or (nm in {x.id for x in ast.walk(a.value) if isinstance(x, ast.Name)})
+                ctx.ob(rule, 'patch_and_check: the returned version is only ever the response\'s metadata.resourceVersion (or that value decorated), never reset', ok,
+                       loc=f.loc(a), construct=construct(f, 'flow:version from the response'), detail=norm(a.value, 80))
+    ctx.require_sites(rule, 'patch_and_check: assignments of the returned version', n, 1, f.loc())
+    # once the request was made, no return hands back a constant instead of that version
+    _, g = cfg_of(ctx, f)
+    reqs = g.call_nodes('patching.patch_obj')
+    ctx.require_sites(rule, 'patch_and_check: the patch_obj request', len(reqs), 1, f.loc())
+    after = g.reach(reqs)
+    for rn in [x for x in after if x.kind == 'return' and isinstance(x.stmt, ast.Return) and isinstance(x.stmt.value, ast.Tuple) and len(x.stmt.value.elts) == 2]:
+        v = rn.stmt.value.elts[0]
+        ctx.ob(rule, 'patch_and_check: after the request every return hands back the version read from its response (not a constant)', isinstance(v, ast.Name) and v.id in names,
+               loc=f.loc(rn.stmt), construct=construct(f, 'flow:no constant version after the request'), detail=norm(v, 40))
+
+
+def check_apply_not_for_deleted(ctx: Ctx, rule: str) -> None:
+    """processing.process_resource_event: nothing is patched for a DELETED event (the object is gone; a patch computed for it could only land on a later object
+    of the same name): application.apply is reached only under `type != 'DELETED'`."""
+    from ..rules import cond_implies, dominating_conditions
+    repo = ctx.repo
+    f, g = cfg_of(ctx, 'processing.process_resource_event')
+    app = g.call_nodes('application.apply')
+    ctx.require_sites(rule, 'process_resource_event: application.apply call', len(app), 1, f.loc())
+
+    def not_deleted(e, o):
+        if isinstance(e, ast.Compare) and len(e.ops) == 1 and isinstance(e.comparators[0], ast.Constant) and e.comparators[0].value == 'DELETED':
+            return (isinstance(e.ops[0], ast.NotEq) and o is True) or (isinstance(e.ops[0], ast.Eq) and o is False)
+        return False
+    for n in app:
+        conds = dominating_conditions(g, n)
+        ok = any(cond_implies(t, o, not_deleted) for t, o, _ in conds)
+        ctx.ob(rule, 'process_resource_event: application.apply is dominated by the test that the event is not DELETED', ok, loc=f.loc(n.stmt),
+               construct=construct(f, 'guard:apply only if not DELETED'))
+
+
+def check_purge_all_keys(ctx: Ctx, rule: str) -> None:
+    """progress storages: purge() nulls EVERY name under which the record may be stored (V2 and V1 keys): the loop over the keys has no early exit -- a surviving
+    copy is found by fetch()'s fallback and resurrects the purged state."""
+    repo = ctx.repo
+    n = 0
+    for cname in ('AnnotationsProgressStorage',):
+        f = repo.fn(f'progress.{cname}.purge')
+        ctx.analysed(f)
+        for lp in [x for x in walk_no_defs(f.node) if isinstance(x, ast.For)]:
+            n += 1
+            exits = [x for st in lp.body for x in ast.walk(st) if isinstance(x, (ast.Break, ast.Return))]
+            ctx.ob(rule, f'{cname}.purge: the loop over the candidate keys visits all of them (no break / return)', not exits, loc=f.loc(lp),
+                   construct=construct(f, 'loop:purge visits all keys'))
+    ctx.require_sites(rule, 'purge: loops over the keys', n, 1)
+
+
+def _c11_outcomes(ctx: Ctx, rule: str) -> None:
+    from . import C11
+    C11.check_outcome_table(ctx, rule)
+
+
+def _purpose(ctx: Ctx, rule: str) -> None:
+    from . import _x_progress
+    _x_progress.check_state_with_purpose(ctx, rule)
+
+
+def _decorators(ctx: Ctx, rule: str) -> None:
+    from . import _x_intents
+    _x_intents.check_decorators(ctx, rule, 'all')
+
+
+def _c10_schedule(ctx: Ctx, rule: str) -> None:
+    from . import C10
+
+    def run(sub: Ctx) -> None:
+        t = C10.Timer(sub)
+        C10.check_first_run(sub, t)
+        C10.check_schedule_table(sub, t)
+    include(ctx, run, rule, 'C10')
+
+
+EXTRA['C07'] += [(check_patched_version_flow, 'R7.9')]
+EXTRA['C08'] += [(check_apply_not_for_deleted, 'R8.13'), (_sleep_table, 'R8.14')]
+EXTRA['C16'] += [(check_purge_all_keys, 'R16.12')]
+EXTRA['C02'] += [(check_purge_all_keys, 'R2.24')]
+EXTRA['C06'] += [(check_postponed_cancellation, 'R6.24'), (_c02_sibling, 'R6.25')]
+EXTRA['C10'] += [(_c11_outcomes, 'R10.8')]
+EXTRA['C11'] += [(_purpose, 'R11.12'), (_decorators, 'R11.13')]
+EXTRA['C12'] += [(_sleep_table, 'R12.33')]
+EXTRA['C20'] += [(_c10_schedule, 'R20.29')]
